@@ -75,6 +75,12 @@ def well_formed_cases(rng, quick):
         cases.append((b"20 application/octet-stream\r\n" + body[:n], "2x-binary", "2x", "n/a"))
     cases.append((b"20 image/png\r\n\x89PNG\r\n\x1a\n" + bytes(range(256)), "2x-binary", "2x", "n/a"))
     cases.append((b"20 \r\nempty meta\n", "2x-no-meta", "2x", "default"))
+    # no media type at all (it defaults to text/gemini): with bytes that are not UTF-8, and with only parameters
+    cases.append((b"20 \r\n\xff\xfe\x00 raw bytes \xe9 under an empty meta\n", "2x-no-meta-undecodable", "2x", "default"))
+    cases.append((b"20 ; charset=iso-8859-1\r\ncaf\xe9 cr\xe8me\n", "2x-no-type-only-charset", "2x", "iso-8859-1"))
+    cases.append((b"20 ;charset=utf-16\r\n" + TEXT.encode("utf-16"), "2x-no-type-only-charset", "2x", "utf-16"))
+    cases.append((b"20 ;lang=fr\r\n\xe9t\xe9\n", "2x-no-type-only-lang", "2x", "default"))
+    cases.append((b"20 TEXT/Gemini; CHARSET=ISO-8859-1\r\ncaf\xe9\n", "2x-uppercase-type", "2x", "iso-8859-1"))
     return cases
 
 
